@@ -50,8 +50,21 @@ def pv_poly(h, axis, a, b):
     return out
 
 
-def intermediate(h, x, y, distort=True):
-    """pixel -> (xi, eta) in degrees, long double arrays"""
+def lonpole_rotation(h, xi, eta):
+    """LONPOLE (paper II eq. 2 with theta0 = 90: the native longitude of the celestial pole) other than the default
+    180 deg turns the native system about the reference point: phi' = phi + (180 - lonpole), i.e. the plane
+    coordinates x = R sin(phi), y = -R cos(phi) rotate counter-clockwise by that angle.  esutil spells the key
+    'longpole'."""
+    lp = h.get("longpole", h.get("lonpole"))
+    if lp is None or float(lp) == 180.0:
+        return xi, eta
+    D = (LD(180) - LD(lp)) * S.D2R
+    return xi * np.cos(D) - eta * np.sin(D), eta * np.cos(D) + xi * np.sin(D)
+
+
+def intermediate(h, x, y, distort=True, rotate=True):
+    """pixel -> (xi, eta) in degrees, long double arrays (in the frame whose eta axis points to the celestial pole
+    when rotate=True)"""
     u = np.asarray(x, dtype="f8").astype(LD) - LD(h["crpix1"])
     v = np.asarray(y, dtype="f8").astype(LD) - LD(h["crpix2"])
     k = kind(h)
@@ -61,6 +74,8 @@ def intermediate(h, x, y, distort=True):
     eta = LD(h["cd2_1"]) * u + LD(h["cd2_2"]) * v
     if k == "tpv" and distort:
         xi, eta = pv_poly(h, 1, xi, eta), pv_poly(h, 2, eta, xi)
+    if rotate:
+        xi, eta = lonpole_rotation(h, xi, eta)
     return xi, eta
 
 
@@ -106,8 +121,8 @@ def inverse_fit_residual(h, ngrid=70):
     cdi = np.linalg.inv(cd)
     u0, v0 = x - h["crpix1"], y - h["crpix2"]
     if k == "tpv":
-        xi0, eta0 = intermediate(h, x, y, distort=False)
-        xi1, eta1 = intermediate(h, x, y, distort=True)
+        xi0, eta0 = intermediate(h, x, y, distort=False, rotate=False)
+        xi1, eta1 = intermediate(h, x, y, distort=True, rotate=False)
         xi0, eta0, xi1, eta1 = [np.asarray(a, dtype="f8") for a in (xi0, eta0, xi1, eta1)]
         s = max(np.abs(xi1).max(), np.abs(eta1).max(), 1e-300)
         A = _design(xi1 / s, eta1 / s, 4, True)
